@@ -53,8 +53,8 @@ class C11(Property):
     def cases(self, tier, rng):
         lines = []
         self.groups = []
-        nbase = 36 if tier == "quick" else 1500
-        nsmall = 160 if tier == "quick" else 4000   # additional small frameworks: every status is also judged
+        nbase = 36 if tier == "quick" else 4000
+        nsmall = 160 if tier == "quick" else 12000   # additional small frameworks: every status is also judged
         for g in range(nbase + nsmall):
             if g >= nbase or g % 4 == 0:
                 n, atts = gen.random_framework(rng, 8) if rng.random() < 0.5 else gen.gadget_union(rng, 8)
